@@ -237,11 +237,10 @@ var syncTypes = map[string]bool{
 	"sync/atomic.Value": true, "sync/atomic.Int32": true, "sync/atomic.Int64": true, "sync/atomic.Bool": true, "sync/atomic.Pointer": true,
 }
 
-// mutexFor is the frozen variable ↔ mutex association (inferred from the majority of access
-// sites, confirmed by reading).
-var mutexFor = map[string]string{
-	"reader.unserializers": "reader.regMtx",
-}
+
+// mutexFor is the variable ↔ mutex association inferred by stateDiscipline on the analysed tree
+// (a mutex held at some access of the variable guards it).
+var mutexFor = map[string]string{}
 
 func globalName(g *ssa.Global) string { return g.Pkg.Pkg.Name() + "." + g.Name() }
 
@@ -521,7 +520,33 @@ func stateDiscipline(c *Ctx, rule string, pkgRels []string, o *origins) map[*ssa
 				}
 				sort.Strings(deepWrites)
 			}
-			if mname, ok := mutexFor[construct]; ok {
+			// the guarding mutex is inferred, not named: if any access outside init holds a
+			// package-level mutex, that mutex guards the variable and every access must hold it
+			mname := ""
+			{
+				cnt := map[string]int{}
+				for _, a := range accs {
+					if isInitFn(a.fn) {
+						continue
+					}
+					for m := range a.held {
+						cnt[m]++
+					}
+				}
+				best := 0
+				var ms []string
+				for m := range cnt {
+					ms = append(ms, m)
+				}
+				sort.Strings(ms)
+				for _, m := range ms {
+					if cnt[m] > best {
+						best, mname = cnt[m], m
+					}
+				}
+			}
+			if mname != "" && (len(nonInitWrites) > 0 || len(deepWrites) > 0) {
+				mutexFor[construct] = mname
 				gi.class = "guarded"
 				bad := false
 				n := 0
